@@ -2,7 +2,8 @@
 (***************************************************************************)
 (* C17: which PAYLOADS drive a literal-only LZMA encoder, started in the    *)
 (* reset state, into its rare states?  The reference encoder of             *)
-(* RangeCoder.tla is run by TLC over every payload of length <= 2, and      *)
+(* RangeCoder.tla is run by TLC over every payload (over Alphabet) of       *)
+(* length <= FullLen, and                                                   *)
 (* beyond that (up to MaxLen) only from states that are about to do         *)
 (* something rare (a pending 0xFF byte exists, the top byte of low is 0xFF, *)
 (* a carry stands in bit 32 over a small low).  A state in which a rare event has just       *)
@@ -15,6 +16,8 @@
 (*   eq24 / m24   after a decision range was exactly 2^24 (not normalised)  *)
 (*                / exactly 2^24 - 1 (normalised)                           *)
 (*   cacheff      the cache byte is 0xFF (set by a carrying ShiftLow)       *)
+(*   pend_last    0xFF bytes are still pending when the LAST byte of the    *)
+(*                flush is written (the low byte of low is 0xFF)            *)
 (* The suffix _flush says the event happened in the five ShiftLow calls of  *)
 (* the final flush rather than while coding the last byte.                  *)
 (*                                                                         *)
@@ -24,10 +27,13 @@
 (***************************************************************************)
 EXTENDS RangeCoder, RangeCoderRare, Json
 
-CONSTANTS MaxLen,      \* longest payload
+CONSTANTS Alphabet,    \* the bytes payloads are made of (0..255, or a small set for a deep search)
+          MaxLen,      \* longest payload
           FullLen,     \* every payload up to this length is visited
           RtLen        \* the round trip is checked for every payload up to this length
                        \* (and, whatever the length, for every payload that reports an event)
+
+AllBytes == 0..255          \* for the configuration file:  Alphabet <- AllBytes
 
 VARIABLES pay, e, pm, ev
 vars == <<pay, e, pm, ev>>
@@ -44,11 +50,12 @@ Events(e0, e1, fl, n) ==
   \cup (IF e1.eq24 > e0.eq24 /\ n = 1 THEN {"eq24"} ELSE {})     \* common: reported for 1-byte payloads only
   \cup (IF e1.m24 > e0.m24 THEN {"m24"} ELSE {})
   \cup (IF e1.cache = 255 /\ e0.cache # 255 THEN {"cacheff"} ELSE {})
+  \cup (IF ShiftLow(ShiftLow(ShiftLow(ShiftLow(e1)))).cs >= 2 THEN {"pend_last"} ELSE {})
 
 (* Inside the directed subtrees single pending bytes and carries into them  *)
 (* are the rule, not the exception: only every 16th of those is printed.    *)
 Loud(kinds, cp, pend, p) ==
-    \/ kinds \cap {"exact32", "exact32_flush", "m24", "cacheff", "eq24"} # {}
+    \/ kinds \cap {"exact32", "exact32_flush", "m24", "cacheff", "eq24", "pend_last"} # {}
     \/ kinds # {} /\ (Len(p) <= 2 \/ cp >= 2 \/ pend >= 2 \/ p[Len(p)] % 16 = 0)
 
 RoundTripOf(p, fl) ==
@@ -62,7 +69,7 @@ Expand == IF Len(pay) < FullLen THEN TRUE ELSE Promising(e)
 Next ==
     /\ Len(pay) < MaxLen
     /\ Expand
-    /\ \E b \in 0..255 :
+    /\ \E b \in Alphabet :
          LET r  == EncLiteral(e, pm, Len(pay), IF pay = <<>> THEN 0 ELSE pay[Len(pay)], b)
              fl == EncFlush(r.e)
              p  == Append(pay, b)
@@ -94,6 +101,7 @@ AllKinds(x, fl) ==
   \cup (IF x.eq24 > 0 THEN {"eq24"} ELSE {})
   \cup (IF x.m24 > 0 THEN {"m24"} ELSE {})
   \cup (IF x.cache = 255 THEN {"cacheff"} ELSE {})
+  \cup (IF ShiftLow(ShiftLow(ShiftLow(ShiftLow(x)))).cs >= 2 THEN {"pend_last"} ELSE {})
 
 ConfirmInit ==
     \E i \in 1..Len(RarePayloads) :
